@@ -47,6 +47,10 @@ type graceTunnel struct {
 	// Plan "cut": the First endpoint half-closes FinMs after the tunnel is up, the other one keeps
 	// writing every IntervalMs until the proxy cuts the tunnel. Plan "finish": the First endpoint
 	// half-closes at FinMs, the other one SecondMs after it has seen that end-of-stream; nobody is cut.
+	// Plan "reply-after-eof" runs like "finish" - the second endpoint writes every IntervalMs until it has READ
+	// the first one's end-of-stream, SecondMs longer (its reply), then half-closes - and is judged by the
+	// property's clause alone: end-of-stream promptly after the last byte, while the opposite direction keeps
+	// flowing. Generated for far legs the proxy cannot half-close (known finding F48).
 	Plan       string `json:"plan"`
 	First      string `json:"first"` // "client" | "target"
 	FinMs      int    `json:"fin_ms"`
@@ -170,6 +174,8 @@ type gTunnelObs struct {
 	upper        int64 // … and both are by then (generous)
 	closeAt      int64 // earliest observation of the tunnel being closed, -1 none
 	closeBy      string
+	// forced: the tunnel was ended by the grace timer (plan "cut"; plan "reply-after-eof" in the shape of F48)
+	forced bool
 }
 
 // firstFlow: the direction that finishes first.
@@ -589,6 +595,16 @@ type gFinding struct {
 	kind   string
 	clause string
 	detail string
+	class  string // known-finding class, decided from the case alone ("" = none)
+}
+
+// classF48: a far leg without any CloseWrite cannot relay the client's half-close (known_findings.json F48).
+const classF48 = "connectfunc-leg-without-closewrite"
+
+// inF48 decides the class from the INPUT alone: a ConnectFunc leg without any CloseWrite, the client
+// half-closes first, and the far end needs that half-close relayed (it replies after end-of-stream).
+func inF48(mode string, gt graceTunnel) bool {
+	return gt.Plan == "reply-after-eof" && gt.First == "client" && !gt.SecondOnFin && !legCanHalfClose(mode)
 }
 
 func ms(us int64) int64 {
@@ -629,7 +645,7 @@ func (co *gCaseObs) summary() string {
 
 // judgeTunnel evaluates one tunnel directly and fills lower / upper / closeAt.
 func judgeTunnel(gc *graceCase, o *gTunnelObs) (fs []gFinding) {
-	add := func(sharp bool, kind, clause, detail string) { fs = append(fs, gFinding{sharp, kind, clause, detail}) }
+	add := func(sharp bool, kind, clause, detail string) { fs = append(fs, gFinding{sharp, kind, clause, detail, ""}) }
 	P := int64(gc.PeriodMs) * 1000
 	slack, prompt := int64(gc.SlackMs)*1000, int64(gc.PromptMs)*1000
 	F, D := o.up, o.down // F: the direction that finishes first, D: the other one
@@ -675,6 +691,7 @@ func judgeTunnel(gc *graceCase, o *gTunnelObs) (fs []gFinding) {
 	}
 	switch o.Plan.Plan {
 	case "cut":
+		o.forced = true
 		o.lower, o.upper = F.finAt+P, eofSeen+P+slack
 		// what shows that the proxy has closed: the end of the still open direction at its reader (the side
 		// that half-closed), a failing write at its writer
@@ -714,6 +731,66 @@ func judgeTunnel(gc *graceCase, o *gTunnelObs) (fs []gFinding) {
 		}
 		if D.finAt >= 0 {
 			add(true, "machinery", "the second endpoint of a cut tunnel never half-closes", "it did")
+		}
+	case "reply-after-eof":
+		// THE PROPERTY'S CLAUSE, as it reads: when one endpoint shuts down its sending side the other endpoint
+		// observes end-of-stream after the last byte (promptly: the tunnel is up and has nothing else to do), while
+		// the opposite direction keeps flowing until it is closed too (the reply written after that end-of-stream
+		// arrives, its own end-of-stream follows its own half-close)
+		clause := "the other endpoint observes end-of-stream after the last byte while the opposite direction keeps flowing (" + F.name + ")"
+		held := F.eofAt >= 0 && F.eofAt <= F.finDoneAt+prompt && D.finDoneAt >= 0 && D.writeErr == "" &&
+			D.eofAt >= D.finAt && len(D.got) == len(D.sent)
+		if held {
+			seen := D.eofAt
+			if seen < eofSeen {
+				seen = eofSeen
+			}
+			o.lower, o.upper = D.finAt, seen+prompt
+			break
+		}
+		shownAt := F.readEndAt // when the far end's read ended at all
+		what := fmt.Sprintf("the source half-closed at %d ms after %d bytes (all %d arrived); its destination's read ended %q at %d ms (-1 = never; tunnel given up at %d ms), period %d ms; the reply of %s: %d of %d bytes arrived, its writer's error %q at %d ms, its reader's stream ended %q at %d ms",
+			ms(F.finAt), len(F.sent), len(F.got), F.readEnd, ms(shownAt), ms(o.endAt), gc.PeriodMs, D.name, len(D.got), len(D.sent), D.writeErr, ms(D.writeErrAt), D.readEnd, ms(D.readEndAt))
+		if !inF48(gc.Mode, o.Plan) {
+			add(false, "eof", clause, what)
+			o.lower, o.upper = F.finAt, eofSeen+P+slack
+			break
+		}
+		// F48: the leg has no CloseWrite, the half-close is not relayed. What the code does instead (and the
+		// model: hstep with Cap.none, then graceExpire) is checked as for a cut tunnel: the far end is shown
+		// nothing before first finish + period, the opposite direction flows until then, then both sides are closed
+		o.forced = true
+		o.lower, o.upper = F.finAt+P, F.finDoneAt+P+slack
+		if D.readEndAt >= 0 {
+			o.closeAt, o.closeBy = D.readEndAt, "reader of "+D.name+" ("+D.readEnd+")"
+		}
+		if shownAt >= 0 && (o.closeAt < 0 || shownAt < o.closeAt) {
+			o.closeAt, o.closeBy = shownAt, "reader of "+F.name+" ("+F.readEnd+")"
+		}
+		other := len(fs)
+		for _, x := range []struct {
+			what string
+			at   int64
+		}{{"the reader of " + F.name + " saw the stream end (" + F.readEnd + ")", shownAt}, {"the reader of " + D.name + " saw the stream end (" + D.readEnd + ")", D.readEndAt}} {
+			switch {
+			case x.at < 0 || x.at > o.upper:
+				add(false, "late", "a tunnel one direction of which has finished is closed on both sides when the grace period has expired",
+					fmt.Sprintf("first finish at %d ms, period %d ms: by %d ms it has not happened that %s (observed at %d ms; -1 = never)", ms(F.finAt), gc.PeriodMs, ms(o.upper), x.what, ms(x.at)))
+			case x.at < o.lower:
+				add(true, "early", "the tunnel is not closed before first finish + grace period",
+					fmt.Sprintf("first finish (CloseWrite called) at %d µs, period %d ms: not before %d µs, but %s at %d µs (%d µs early)", F.finAt, gc.PeriodMs, o.lower, x.what, x.at, o.lower-x.at))
+			}
+		}
+		for _, w := range D.writes {
+			if w.atEnd <= o.lower-graceMarginUs && len(D.got) < w.end {
+				add(false, "flow", "the opposite direction keeps flowing until the grace period expires ("+D.name+")",
+					fmt.Sprintf("bytes [%d,%d) were written at %d ms, %d ms before first finish + period (%d ms); %d bytes arrived", w.start, w.end, ms(w.atEnd), ms(o.lower-w.atEnd), ms(o.lower), len(D.got)))
+				break
+			}
+		}
+		if len(fs) == other {
+			// exactly the recorded defect, nothing else
+			fs = append(fs, gFinding{true, "f48", clause, what + "; the far leg (" + gc.Mode + ") has no CloseWrite anywhere: copier.closeWriter only logs \"cannot close write side of tunnel\", the far end was shown nothing until the grace timer closed the tunnel", classF48})
 		}
 	default: // finish
 		if D.finDoneAt < 0 {
@@ -769,7 +846,7 @@ func skippedAfterOverdue(co *gCaseObs, i int) bool {
 // judgeCase: the tunnels one by one, then what is only visible per proxy (gauges, log).
 func judgeCase(gc *graceCase, co *gCaseObs) (fs []gFinding) {
 	if co.gaugeErr != "" {
-		return []gFinding{{true, "machinery", "socket closure is observable through forwarder's connection tracking", co.gaugeErr}}
+		return []gFinding{{true, "machinery", "socket closure is observable through forwarder's connection tracking", co.gaugeErr, ""}}
 	}
 	var lowers, uppers []int64
 	cuts := 0
@@ -782,7 +859,7 @@ func judgeCase(gc *graceCase, co *gCaseObs) (fs []gFinding) {
 			if skippedAfterOverdue(co, i) {
 				return fs // the tunnel before it was never cut (reported): the rest of the sequence was not run
 			}
-			return append(fs, gFinding{false, "establish", "the tunnel is established (2xx to CONNECT / 101 to Upgrade)", fmt.Sprintf("tunnel %d: %s", i, e)})
+			return append(fs, gFinding{false, "establish", "the tunnel is established (2xx to CONNECT / 101 to Upgrade)", fmt.Sprintf("tunnel %d: %s", i, e), ""})
 		}
 		for _, f := range judgeTunnel(gc, o) {
 			f.detail = fmt.Sprintf("tunnel %d of the case: %s", i, f.detail)
@@ -795,7 +872,7 @@ func judgeCase(gc *graceCase, co *gCaseObs) (fs []gFinding) {
 			// a quiet tunnel: the proxy's sockets are closed while the harness still holds its own
 			fs = append(fs, gFinding{false, "late", "a tunnel one direction of which has finished is closed on both sides when the grace period has expired",
 				fmt.Sprintf("tunnel %d of the case: the forced close was seen at %d ms (%s); the endpoint that stayed open had gone quiet and the harness kept both its sockets open until %d ms: the proxy still held %v client-side / %v target-side sockets then",
-					i, ms(o.closeAt), o.closeBy, ms(o.heldTo), o.heldC, o.heldT)})
+					i, ms(o.closeAt), o.closeBy, ms(o.heldTo), o.heldC, o.heldT), ""})
 		}
 		lowers, uppers = append(lowers, o.lower), append(uppers, o.upper)
 		if o.Plan.Plan == "cut" {
@@ -831,18 +908,18 @@ func judgeCase(gc *graceCase, co *gCaseObs) (fs []gFinding) {
 					clause = "a tunnel one direction of which has finished is closed on both sides when the grace period has expired"
 				}
 				fs = append(fs, gFinding{false, "late", clause,
-					fmt.Sprintf("the proxy's %s socket count (forwarder's connection tracking) went down for the %d. time at %d ms (-1 = never during the case, which ended at %d ms); due by %d ms", g.side, k+1, ms(at), ms(co.endAt), ms(uppers[k]))})
+					fmt.Sprintf("the proxy's %s socket count (forwarder's connection tracking) went down for the %d. time at %d ms (-1 = never during the case, which ended at %d ms); due by %d ms", g.side, k+1, ms(at), ms(co.endAt), ms(uppers[k])), ""})
 			case g.downs[k] < lowers[k]:
 				clause := "nothing is closed before both directions are finished"
 				if cuts > 0 {
 					clause = "the tunnel is not closed before first finish + grace period"
 				}
 				fs = append(fs, gFinding{true, "early", clause,
-					fmt.Sprintf("the proxy's %s socket count went down for the %d. time at %d µs, not allowed before %d µs (%d µs early)", g.side, k+1, g.downs[k], lowers[k], lowers[k]-g.downs[k])})
+					fmt.Sprintf("the proxy's %s socket count went down for the %d. time at %d µs, not allowed before %d µs (%d µs early)", g.side, k+1, g.downs[k], lowers[k], lowers[k]-g.downs[k]), ""})
 			}
 		}
 		if len(g.downs) > len(lowers) {
-			fs = append(fs, gFinding{true, "machinery", "the gauges count the tunnels of the case", fmt.Sprintf("%s gauge went down %d times for %d tunnels", g.side, len(g.downs), len(lowers))})
+			fs = append(fs, gFinding{true, "machinery", "the gauges count the tunnels of the case", fmt.Sprintf("%s gauge went down %d times for %d tunnels", g.side, len(g.downs), len(lowers)), ""})
 		}
 	}
 	return fs
@@ -916,7 +993,8 @@ func timedHistory(gc *graceCase, o *gTunnelObs, c modelCfg, geAt int64, endAt in
 			}
 			push(at, "write", st...)
 		}
-		if f.finAt >= 0 && f.finDoneAt >= 0 {
+		if f.finAt >= 0 && f.finDoneAt >= 0 && !(geAt >= 0 && ms(f.finAt) >= geAt && f.eofAt < f.finAt) {
+			// (a half-close made after the tunnel was seen closed is not part of the tunnel's history)
 			st := []string{x.f1}
 			if f.eofAt >= 0 {
 				st = append(st, x.e1)
@@ -974,7 +1052,7 @@ func modelVerdict(ctx *core.Ctx, gc *graceCase, o *gTunnelObs) (verdict, detail 
 	endAt := ms(o.endAt)
 	finAtMs := ms(o.lower) - int64(gc.PeriodMs) // first finish, ms
 	slack := int64(0)
-	if o.Plan.Plan == "cut" {
+	if o.forced {
 		geAt = ms(o.closeAt)
 		if geAt >= 0 {
 			endAt = geAt
@@ -1015,8 +1093,11 @@ func modelVerdict(ctx *core.Ctx, gc *graceCase, o *gTunnelObs) (verdict, detail 
 	kv := kvOf(ans)
 	b := func(x bool) string { return core.B01(x) }
 	var want string
-	if o.Plan.Plan == "cut" {
-		want = fmt.Sprintf("phase=closed eofU=%s eofD=%s closedC=1 closedT=1 expired=1 dropped=0 armedAt=%d expiredAt=%d", b(o.up.eofAt >= 0 && o.up.finAt >= 0), b(o.down.eofAt >= 0 && o.down.finAt >= 0), finAtMs, geAt)
+	if o.forced {
+		// (the model's eof = the copier returned after the source's half-close; a half-close made after the tunnel
+		// was seen closed does not count)
+		fair := func(f *gFlow) bool { return f.eofAt >= 0 && f.finAt >= 0 && f.finAt <= f.eofAt }
+		want = fmt.Sprintf("phase=closed eofU=%s eofD=%s closedC=1 closedT=1 expired=1 dropped=0 armedAt=%d expiredAt=%d", b(fair(o.up)), b(fair(o.down)), finAtMs, geAt)
 	} else {
 		first := ms(o.up.finAt)
 		if o.Plan.First == "target" {
@@ -1033,10 +1114,27 @@ func modelVerdict(ctx *core.Ctx, gc *graceCase, o *gTunnelObs) (verdict, detail 
 	if string(mu) != string(o.up.got) || string(md) != string(o.down.got) {
 		return "other", fmt.Sprintf("timed machine delivered up=%d down=%d bytes, the endpoints received up=%d down=%d", len(mu), len(md), len(o.up.got), len(o.down.got))
 	}
-	if o.Plan.Plan == "finish" && kv["accept"] != "1" {
+	if !o.forced && kv["accept"] != "1" {
 		return "other", "the terminal state of a tunnel both directions of which finished is not accepted: " + ans
 	}
-	if o.Plan.Plan != "cut" || geAt < 0 {
+	if o.forced && geAt >= 0 && inF48(gc.Mode, o.Plan) {
+		// F48 in the model: the same history, its ticks erased, on the machine with the legs of this configuration
+		// under the code's policy - the far end of the leg without CloseWrite is NOT shown end-of-stream, and
+		// nothing is cut by closeWriter (the close is the grace timer's)
+		var untimed []string
+		for _, st := range steps {
+			if !strings.HasPrefix(st, "tk:") {
+				untimed = append(untimed, st)
+			}
+		}
+		hans := ctx.Model.MustAsk("C03", "hrun", c.wire(), legsWire(gc.Mode), "leave", core.JoinList2(untimed))
+		hkv := kvOf(hans)
+		if !strings.HasPrefix(hans, "ok ") || hkv["phase"] != "closed" || hkv["expired"] != "1" || hkv["shownU"] != "0" || hkv["cut"] != "0" ||
+			hkv["up"] != kv["up"] || hkv["down"] != kv["down"] {
+			return "other", "the machine with leg capabilities does not mirror the observed history of a leg without CloseWrite (expected closed by the grace timer, the far end not shown end-of-stream): " + hans
+		}
+	}
+	if !o.forced || geAt < 0 {
 		return "", ""
 	}
 	// the acceptor must reject the same history with the forced close misplaced (these answers depend
@@ -1127,6 +1225,11 @@ func (e *env) graceAttempt(ctx *core.Ctx, gc *graceCase, book *graceBook) (*gCas
 	co := e.runGraceCase(gc)
 	book.expected.Add(int64(co.cutsRun))
 	fs := judgeCase(gc, co)
+	for _, o := range co.tunnels {
+		if o != nil && o.Plan.Plan == "reply-after-eof" && o.forced {
+			book.expected.Add(1) // F48: the grace timer ended this tunnel
+		}
+	}
 	if co.gaugeErr != "" {
 		return co, fs
 	}
@@ -1150,11 +1253,11 @@ func (e *env) graceAttempt(ctx *core.Ctx, gc *graceCase, book *graceBook) (*gCas
 			// the direct evaluation compares microseconds and every witness, the machine was driven with whole
 			// milliseconds and the earliest witness: the direct verdict stands
 		case v == "early" && !direct["early"]:
-			fs = append(fs, gFinding{true, "model", "direct evaluation of the grace period agrees with the timed model", d})
+			fs = append(fs, gFinding{true, "model", "direct evaluation of the grace period agrees with the timed model", d, ""})
 		case v == "late" && !direct["late"]:
-			fs = append(fs, gFinding{false, "model", "direct evaluation of the grace period agrees with the timed model", d})
+			fs = append(fs, gFinding{false, "model", "direct evaluation of the grace period agrees with the timed model", d, ""})
 		case v == "other":
-			fs = append(fs, gFinding{true, "model-other", "the observed history is a run of the timed tunnel machine", d})
+			fs = append(fs, gFinding{true, "model-other", "the observed history is a run of the timed tunnel machine", d, ""})
 		case v != "":
 			// the model objects where the direct evaluation does: attach its words
 			for j := range fs {
@@ -1188,16 +1291,32 @@ func noteSuspicion(gc *graceCase, attempt int, fs []gFinding) {
 
 // runGraceConfirmed runs a case; a suspected failure is confirmed by repetition before it is reported:
 // a failure of a generous bound has to show in each of three runs, a failure of a sharp bound or of the
-// content in two of three.
+// content in two of three. A failure whose class is a recorded finding (decided from the case alone; it is
+// observed exactly as recorded or not reported under that class at all) is reported as it is.
 func (e *env) runGraceConfirmed(ctx *core.Ctx, gc *graceCase, book *graceBook) {
 	key, _ := json.Marshal(gc)
 	var co *gCaseObs
 	var fs, sharpSeen []gFinding
 	var sharpObs *gCaseObs
 	sharpRuns, failedRuns, attempts := 0, 0, 0
+	var known []gFinding
+	var knownObs *gCaseObs
 	for attempts < 3 {
 		attempts++
-		co, fs = e.graceAttempt(ctx, gc, book)
+		var all []gFinding
+		co, all = e.graceAttempt(ctx, gc, book)
+		fs = nil
+		var kn []gFinding
+		for _, f := range all {
+			if f.class != "" {
+				kn = append(kn, f)
+			} else {
+				fs = append(fs, f)
+			}
+		}
+		if known == nil && len(kn) > 0 {
+			known, knownObs = kn, co
+		}
 		if len(fs) == 0 {
 			if sharpRuns == 0 {
 				break
@@ -1222,6 +1341,10 @@ func (e *env) runGraceConfirmed(ctx *core.Ctx, gc *graceCase, book *graceBook) {
 	}
 	if attempts > 1 {
 		ctx.Count("grace/repeated-after-a-suspected-failure")
+	}
+	for _, f := range known {
+		ctx.Count("grace/known-finding-class/" + f.class)
+		ctx.SpecFail(f.clause, f.class, gc, knownObs.summary(), f.detail)
 	}
 	for i := range gc.Tunnels {
 		ctx.Case(string(key)+"#"+core.Itoa(i), true)
@@ -1317,6 +1440,11 @@ func genGraceCase(r *core.Rand, mode, variant string, periodMs int, long bool) *
 		b := graceTunnelPlan(r, "finish", sides[1], periodMs+r.Range(150, 300), r.Range(0, 60))
 		b.After, b.StartMs = true, r.Range(0, 40)
 		gc.Tunnels = []graceTunnel{a, b}
+	case variantF48:
+		// the case the generator used to avoid: the client half-closes first and the far end replies only after it
+		// has READ that end-of-stream - on a far leg the proxy cannot half-close (only such modes run this batch)
+		gt := graceTunnelPlan(r, "reply-after-eof", "client", r.Range(60, 160), r.Range(40, 100))
+		gc.Tunnels = []graceTunnel{gt}
 	case "long-lived/no-direction-finishes-for-several-periods":
 		// (c): the timer does not start when the tunnel does
 		k := r.Range(22, 30)
@@ -1361,6 +1489,9 @@ type graceBatch struct {
 	pLo, pHi int
 }
 
+// variantF48: known finding F48 (a ConnectFunc leg without any CloseWrite cannot relay a half-close)
+const variantF48 = "far-end-replies-after-end-of-stream/on-a-leg-without-closewrite"
+
 // runGracePhase: batch after batch, each with its own period; in a batch every mode runs its case at
 // the same time, each on its own proxy.
 func runGracePhase(ctx *core.Ctx, pool *envPool, modes []string) {
@@ -1369,6 +1500,7 @@ func runGracePhase(ctx *core.Ctx, pool *envPool, modes []string) {
 		{"cut/two-tunnels-in-parallel", 500, 800},
 		{"both-finish-within-the-period/then-a-new-tunnel-outlives-the-old-deadline", 1500, 1800},
 		{"long-lived/no-direction-finishes-for-several-periods", 300, 450},
+		{variantF48, 300, 450},
 	}
 	if v := os.Getenv("VERIF_C03_GRACE"); v != "" { // development aid: only the batches whose name contains v
 		var sel []graceBatch
@@ -1400,8 +1532,11 @@ func runGracePhase(ctx *core.Ctx, pool *envPool, modes []string) {
 			book := openGraceBook(ctx, period)
 			var wg sync.WaitGroup
 			for _, mode := range modes {
+				if b.variant == variantF48 && legCanHalfClose(mode) {
+					continue
+				}
 				gc := genGraceCase(rb.Sub(), mode, b.variant, period, long)
-				if round == 0 && mode == modes[0] {
+				if round == 0 && book.first == nil {
 					ctx.Sample(gc)
 				}
 				if book.first == nil {
